@@ -102,6 +102,17 @@ func c17ShapeOf(doc interface{}, legs []verifJLeg) c17Shape {
 	prevKey := false
 	for li, l := range legs {
 		final := li == len(legs)-1
+		if !l.isIdx && l.raw == "" {
+			if l.key == "" {
+				sh.emptyKey = true
+			}
+			if strings.Contains(l.key, `"`) {
+				sh.quoteKey = true
+			}
+		}
+		if strings.HasPrefix(l.raw, "last-") {
+			sh.lastN = true
+		}
 		if missing {
 			sh.traits = append(sh.traits, "after_miss")
 			sh.afterMiss = true
